@@ -1,6 +1,6 @@
 (** Pins/C15.v — the statements of the C15 theorems, pinned. *)
 From PdfV Require Import Base.Prelude Gen.Generated Typed.Prim Typed.Schema Typed.Derive Typed.Hand
-  Typed.DictProofs Typed.DeriveProofs Typed.HandProofs Properties.C15.
+  Typed.DictProofs Typed.DeriveProofs Typed.HandProofs Typed.ReadProofs Typed.TopProofs Properties.C15.
 
 Check C15_value_rt : forall SC H allow E (hand_ok : N -> value -> Prop),
   (forall i x p, hand_ok i x -> h_write H i x = TOk p ->
@@ -20,5 +20,52 @@ Check C15_generated_value_rt : forall allow E f chain t v p,
   exists v', read gen_schemas hands allow E f chain t p = TOk v' /\ write gen_schemas hands f t v' = TOk p.
 Check C15_hand_Rectangle : forall rs v p, write_numbers 4 v = TOk p ->
   exists v', read_rectangle rs p = TOk v' /\ write_numbers 4 v' = TOk p.
-Check C15_hand_Matrix : forall v p, write_numbers 6 v = TOk p ->
-  exists v', read_matrix p = TOk v' /\ write_numbers 6 v' = TOk p.
+Check C15_hand_Matrix : forall rs v p, write_numbers 6 v = TOk p ->
+  exists v', read_matrix rs p = TOk v' /\ write_numbers 6 v' = TOk p.
+Check C15_hand_Date : forall rs v p, write_date v = TOk p ->
+  exists v', read_date rs p = TOk v' /\ write_date v' = TOk p.
+Check C15_dict_rt_read : forall SC H allow E f chain i s d vs dw,
+  get_struct SC i = Some s -> schema_wf s = true -> existsb f_other (s_fields s) = true -> nodup_keys d ->
+  read SC H allow E (S f) chain (TStruct i) (PDict d) = TOk (VStruct vs) ->
+  write SC H (S f) (TStruct i) (VStruct vs) = TOk (PDict dw) ->
+  (forall k v, key_fresh k (s_fields s) = true -> dget k d = Some v -> dget k dw = Some v)
+  /\
+  (forall fd q, In fd (s_fields s) -> normal fd = true -> dget (f_key fd) d = Some q ->
+     exists x val, read SC H allow E f chain (f_ty fd) q = TOk x /\ write SC H f (f_ty fd) x = TOk val
+                   /\ dget (f_key fd) dw = (if is_null val then None else Some val))
+  /\
+  (forall k val, dget k dw = Some val -> dget k d = None ->
+     (k = TypeKey /\ val = PName (s_type s))
+     \/ (exists n, In (k, n) (s_checks s) /\ val = PName n)
+     \/ exists fd x, In fd (s_fields s) /\ normal fd = true /\ k = f_key fd /\ write SC H f (f_ty fd) x = TOk val /\
+          (match f_default fd with
+           | DNone => read SC H allow E f chain (f_ty fd) PNull = TOk x
+           | dv => exists acc, x = default_value dv acc
+           end)).
+Check C15_top_rt : forall SC H allow E1 (hand_ok : N -> value -> Prop),
+  (forall i x p, hand_ok i x -> h_write H i x = TOk p ->
+     exists x', h_read H i (resolve E1) p = TOk x' /\ h_write H i x' = TOk p) ->
+  forall F E0 i s vs dw,
+  get_struct SC i = Some s -> schema_wf_top s = true ->
+  (forall fd, In fd (s_fields s) -> normal fd = true -> dget (f_key fd) (other_of (s_fields s) vs) = None) ->
+  write_top SC H F E0 i (VStruct vs) = TOk (PDict dw, E1) ->
+  top_ok SC H allow E1 hand_ok F (s_fields s) vs (lenN E0) ->
+  (3 <= F)%nat ->
+  exists vs', read SC H allow E1 (S F) [] (TStruct i) (PDict dw) = TOk (VStruct vs')
+    /\ exists dw' E2, write_top SC H F E1 i (VStruct vs') = TOk (PDict dw', E2)
+         /\ (exists X, E2 = E1 ++ X) /\ sim_dict E2 dw dw'.
+Check C15_top_rt_maybe_ref : forall SC H allow E1 (hand_ok : N -> value -> Prop),
+  (forall i x p, hand_ok i x -> h_write H i x = TOk p ->
+     exists x', h_read H i (resolve E1) p = TOk x' /\ h_write H i x' = TOk p) ->
+  forall F E0 i s vs dw,
+  get_struct SC i = Some s -> schema_wf_top s = true ->
+  (forall fd, In fd (s_fields s) -> normal fd = true -> dget (f_key fd) (other_of (s_fields s) vs) = None) ->
+  write_top SC H F E0 i (VStruct vs) = TOk (PDict dw, E1) ->
+  top_ok SC H allow E1 hand_ok F (s_fields s) vs (lenN E0) ->
+  maybe_ref_only s = true ->
+  exists vs', read SC H allow E1 (S F) [] (TStruct i) (PDict dw) = TOk (VStruct vs')
+    /\ write_top SC H F E1 i (VStruct vs') = TOk (PDict dw, E1).
+Check C15_generated_top_wf : forallb (fun s => negb (rw s) || schema_wf_top s) (structs gen_schemas) = true.
+
+Check C15_hand_Action : forall rs v p, action_ok v -> write_action v = TOk p ->
+  exists v', read_action rs p = TOk v' /\ write_action v' = TOk p.
